@@ -187,6 +187,7 @@ class ThrottleExecutor(CanCustomizeBind, Executor):
             for job in self._to_submit:
                 if job.future is future:
                     self._to_submit.remove(job)
+                    metrics.THROTTLE_QUEUE.labels(executor=self._name).dec()
                     self._log.debug("Cancelled %s", job)
                     return True
         self._log.debug("Could not find for cancel: %s", future)
